@@ -591,6 +591,174 @@ claim(
     "DESIGN.md Part I, §5.1 C46",
 )
 
+claim(
+    "C14",
+    "One parallel_for call with a states container is modelled as W actors (the tasks handed to scheduleBulk and, with "
+    "wait=true, the caller's own share), actor a bound to states[a], plus the separately invoked granularity tail on "
+    "states[0] (Model/ParForExec.lean; one action per fetch_add on the shared chunk index / exit counter and per body "
+    "begin/end; static, single-group dynamic with its exit tickets, multi-group dynamic with its exit counter, stripes; the "
+    "caller's barrier = the task set's wait()). Proved over every reachable state of every interleaving, for every number of "
+    "actors and chunks: two different actors never use the same element at the same time and the caller's tail overlaps no "
+    "invocation (C14_exclusive); while the last worker of a wait=false dynamic loop runs the tail every other worker has "
+    "left its loop for good — the exit-ticket / pigeonhole argument (C14_tail_alone); the tail runs at most once "
+    "(C14_tail_once); the task set's wait() returns only after every actor is done and the tail, if any, has run exactly "
+    "once, so all of this holds until then, wait=false included (C14_until_wait; with wait=true already at return: "
+    "C14_return_wait); for the system sysOf c of every configuration c of the planning model (sysOf_wf): every element "
+    "used exists in the container left behind (C14_index_in_container), which has >= 1 element for a non-empty range "
+    "(C14_states_nonempty) and exactly one per loop task, <= max(maxThreads,1) and <= pool+1, unless reuseExistingState "
+    "keeps a larger one (C14_states_bound); an empty range leaves the container untouched (C14_empty_range_untouched). "
+    "Tie: (D) every sampled / exhaustive-8-bit call on real pools of 0..4 and 17/20 threads reports the element each "
+    "invocation was given (pointer identity) and the final container size, checked against the model's chunk->state map "
+    "(exact for serial/static, range + tail-on-0 for dynamic/stripes); (V) the same call with the whole library under the "
+    "deterministic scheduler: the trace of body begins/ends and of the fetch_add(1) operations on the shared chunk index "
+    "(found in the raw event log; ticket values, and the declared memory order of exit tickets) is replayed through the "
+    "model's step function. Oracle: per-state in-use counters in the body (native and under dsched), element inside the "
+    "container, container non-empty.",
+    "Trusted: Lean kernel; the hand-written model; the planning model of C12/C48 for W, chunk list and mode; the task-set "
+    "specification (wait() returns only when all scheduled tasks have finished: C02) as the barrier. Sequentially "
+    "consistent interleavings: the model cannot exhibit weak-memory behaviour; the one place where exclusion rests on a "
+    "memory order (the exit tickets of the wait=false dynamic path must be release/acquire for the tail to be ordered "
+    "after the other workers' bodies) is checked on the declared orders in the trace and currently FAILS on the unchanged "
+    "code (relaxed fetch_add; ThreadSanitizer reports the race; repair delivered as a patch). Which OS thread runs an "
+    "actor, the stripe / per-group cursors (abstracted to 'any unclaimed chunk'; C12 covers them) and the static path's "
+    "choice of the caller's chunk are not modelled. The multi-group dynamic path (> 16 workers) is tied natively only (D), "
+    "not under the scheduler. For an empty range the container is left as it was, possibly empty.",
+    "Lean 4 proof (inductive invariant over all interleavings, pigeonhole on exit numbers) + differential and trace correspondence",
+    "DESIGN.md §5.2 C14, A.7",
+)
+
+claim(
+    "C16",
+    "parallel_invoke.h's recursion (schedule the first functor with skipRecheck, recurse, call the last one directly) is "
+    "modelled over an abstract task set (schedule(f) runs f inline on the caller or packages a task that is executed once; "
+    "wait() returns when no task is outstanding) for arbitrary programs: any tree of nested parallel_invoke calls of any "
+    "arities and depth, functors running on any threads (Model/ParInvoke.lean). Proved for every interleaving and every "
+    "inline/queue choice: no functor is ever invoked twice (C16_at_most_once); when a call has returned its last functor "
+    "has been invoked exactly once, on the calling thread, not as a task, and has finished, and every other functor has "
+    "been run inline or handed to the task set (C16_return); once wait() has returned every functor of the whole tree has "
+    "been invoked exactly once and has finished (C16_wait; flat n >= 1 case: C16_flat). Tie: random programs (flat 1..8, "
+    "binary divide and conquer to depth 12, random arities, chains to depth 30) on ConcurrentTaskSet (kHeavy/kLightweight, "
+    "pre-loaded or not) over pools of 0..3 threads, natively and with the whole library under the deterministic "
+    "scheduler; every run's event sequence (functor begin/end with thread ids, call return, wait return) is replayed "
+    "through the model's step function. Oracle: per-functor invocation counters, thread ids, global event order.",
+    "Trusted: Lean kernel; the hand-written model; the abstract task-set specification (a queued task is executed exactly "
+    "once and wait() waits for it: C01/C02 — the model's take/finishTask/waitDone). The schedule() calls themselves are "
+    "not visible in a trace; the acceptor places a queue step at the latest point consistent with the code. parallel_invoke "
+    "only accepts ConcurrentTaskSet (there is no TaskSet overload). Cancellation and throwing functors are outside the "
+    "model; recursion depth of inline execution (C46) is not part of this property.",
+    "Lean 4 proof (inductive invariant over all interleavings, induction over the call tree) + trace correspondence",
+    "DESIGN.md §5.2 C16",
+)
+
+claim(
+    "C25",
+    "ResourcePool / Resource are modelled at handle level (Model/ResPool.lean): the queue of free resources is a bag of "
+    "resource ids guarded by a counting semaphore (enqueue = add + signal, wait_dequeue = semaphore wait + remove, one "
+    "model action each), Resource handles with acquire(), move construction, move assignment (recycle the destination, "
+    "take the source, self-assignment a no-op) and destruction, pool construction and destruction; any number of threads "
+    "and handles, any interleaving (inductive invariant over Reachable). Proved for every size: every constructed "
+    "resource is in exactly one of {free queue, one live handle, destroyed} (C25_conservation), hence at most size are "
+    "held (C25_at_most_size_held) and no resource is in two handles, or held and free/destroyed (C25_exclusive); a thread "
+    "waits in acquire() on an empty semaphore only while every free resource is already claimed by an acquire that took its "
+    "token or a release whose signal is pending, and with no such call in flight all size resources are held "
+    "(C25_blocks_only_when_all_held; C25_acquire_enabled: with a token available the wait is enabled); once all handles "
+    "are returned the destructor never blocks (C25_dtor_never_blocks) and ends with every resource destroyed exactly "
+    "once, nothing destroyed earlier (C25_destroyed_once, C25_no_destroy_before_dtor). Tie: the real ResourcePool runs "
+    "under the deterministic scheduler (dsched interposes sem_*; 1..4 threads, 1..4 resources, handles moved, "
+    "self-assigned, handed from the main thread to workers, long holds that make waiters exhaust the spin budget and "
+    "park); the call/ret trace (including which resource every acquire returned, what every handle points to after each "
+    "move, which resources the destructor destroyed) is replayed through the same exec. Oracle: per-resource holder "
+    "counters, construction/destruction counters, and every observation of an empty semaphore by an acquiring thread is "
+    "checked against the resources certainly free at that moment.",
+    "Trusted: Lean kernel; dsched; moodycamel::BlockingConcurrentQueue / LightweightSemaphore as a bag guarded by a "
+    "counting semaphore (third-party, exercised not modelled: the trace is validated at call/ret level, the enqueue of a "
+    "releasing call is linearised at its call event and the dequeue of an acquire at its return); class contracts: all "
+    "handles returned before ~ResourcePool and no call concurrent with it, one thread per handle at a time. The model cannot "
+    "exhibit a failed enqueue (allocation failure inside moodycamel, whose bool result recycle() ignores) nor spurious "
+    "try_dequeue failures (the code loops on them).",
+    "Lean 4 proof (inductive invariant over an interleaving semantics) + trace validation under a deterministic scheduler",
+    "DESIGN.md §5.3 C25",
+)
+
+claim(
+    "C41",
+    "SmallBufferAllocator is modelled as a flow of block tokens (Model/SmallBuf.lean): block c*P+i is the i-th piece of the "
+    "c-th slab; the central store is a bag (enqueue_bulk adds, try_dequeue_bulk removes any sub-bag of at most I blocks, "
+    "possibly none), per-thread caches tlBuffers[0,tlCount), slab carving under backingStoreLock (fetch_add winner / "
+    "store 0, losers spin), the bytesAllocated() CAS loop, backingStore.push_back split into read and write, dealloc on any "
+    "thread with recycling of the upper half at kMaxNumTLBuffers, thread exit returning the cache, allocator calls made "
+    "after that by later thread_local destructors; one action per shared-memory operation, any number of threads, any "
+    "interleaving. Proved for all 1 <= I <= P: every block of every slab obtained is in exactly one place - central "
+    "store, one cache or local array, or handed out (C41_conservation, C41_exclusive); alloc's last step always succeeds "
+    "and returns a block that was not handed out (C41_alloc_fresh), a handed-out block leaves that state only through "
+    "dealloc of it (C41_live_leaves_only_by_dealloc), tlCount <= kMaxNumTLBuffers (C41_cache_bounds); with slab bases "
+    "N-aligned and slabs disjoint, blocks are N-aligned, inside their slab and pairwise disjoint "
+    "(C41_blocks_aligned_disjoint, C41_live_blocks_disjoint); for every power of two N <= 256 the selected class has "
+    "max(N,4) >= N bytes, a multiple of N (C41_class_size; C41_nonpow2_too_small shows the documented precondition is "
+    "needed); the lock is a mutual-exclusion lock over all users including the diagnostics call and backingStore holds "
+    "every slab once (C41_lock_mutex, C41_backing_complete). These hold for the repaired code; for the code as found the "
+    "negative witnesses are theorems too: the CAS loop keeps the observed value as expected and enters an occupied "
+    "critical section, then releases it under the owner (C41_old_lock_broken, C41_old_two_carvers), and "
+    "~PerThreadQueuingData leaves tlCount unchanged so a later call on the exiting thread hands out blocks that are in the "
+    "central store (C41_old_exit_double_handout). Tie: (D) per class a sequential history from the main thread and helper "
+    "threads that run one at a time and exit (cross-thread frees, class 4 via N=1,2,4, late calls from a thread_local "
+    "destructor), every operation compared with the model (block, tlCount, slabs, central size); (V) 2..4 threads under "
+    "the deterministic scheduler, one process per scenario, call/ret events and every atomic operation on the lock word "
+    "replayed through the same exec. Oracle: ownership map with canaries, alignment, inside-slab, critical-section "
+    "occupancy recomputed from the lock-word events, bytesAllocated value.",
+    "Trusted: Lean kernel; dsched; moodycamel::ConcurrentQueue as a linearizable bag (the result of try_dequeue_bulk is "
+    "taken from the implementation's cache and checked to be a sub-bag; queue operations are not trace events: enqueues "
+    "are linearised at the preceding visible event of their thread, dequeues at the following one); malloc returns "
+    "disjoint 16-byte aligned regions and alignedMalloc's arithmetic (C44). Outside the model: the undefined behaviour of "
+    "two racing std::vector::push_back calls (what the broken lock leads to in the real code: heap-use-after-free under "
+    "ASan), use of the destroyed moodycamel tokens by late calls (the repaired destructor only guarantees the cache is "
+    "empty), 2^32 lock-word wrap-around, non-power-of-two N.",
+    "Lean 4 proof (token-conservation invariant over an interleaving semantics, lock mutual exclusion, address arithmetic) "
+    "+ differential and trace correspondence",
+    "DESIGN.md §5.5 C41",
+)
+
+claim(
+    "C26",
+    "One TimedTaskImpl with everybody who touches it is modelled at one action per atomic operation (Model/TimedTask.lean): "
+    "the thread running kickOffTask (creator inside addTimedTask or the scheduler thread after popping the entry when "
+    "next - cur < kSmallTimeBuffer for a clock value cur read in the past), any number of wrap closures on the backing "
+    "schedulable (each its own thread; an inline schedulable blocks the kicker), any number of cancel()/detach()/calls() "
+    "clients, one ~TimedTask, a monotone clock; timesToRun wraps at 0 as size_t does; Cfg.fixed selects the code as found or "
+    "the repaired kick-off. Proved for every reachable state (all interleavings, all configurations, both variants): "
+    "invocations <= timesToRun (C26_run_count); no invocation starts after a cancel() returned "
+    "(C26_no_start_after_cancel_returned); none starts earlier than kSmallTimeBuffer before the first scheduled time "
+    "(C26_not_before_first_time_minus_buffer); once a non-detached ~TimedTask has returned no wrap is between its start "
+    "check and its inProgress decrement and none ever starts again (C26_dtor_return), and the destructor leaves its spin only "
+    "when inProgress = 0 = kick-offs holding a unit + wraps not done (C26_dtor_waits); no invocation starts after a false "
+    "return has been published by flags.fetch_or (C26_no_start_after_false_published_partial), and with an inline "
+    "schedulable none after the false return itself (C26_no_start_after_false_inline). NOT provable, with machine-checked "
+    "witnesses: with overlapping invocations one can start between another's false return and its fetch_or "
+    "(C26_start_after_false_return_counterexample); the first invocation can start up to kSmallTimeBuffer (10 us) before the "
+    "first scheduled time (C26_start_before_first_time_counterexample); in the code as found ~TimedTask or a false return "
+    "destroys func while kickOffTask is about to call it / is inside its closure / another invocation is executing "
+    "(C26_old_dtor_destroys_func_before_call, C26_old_dtor_destroys_func_during_closure, "
+    "C26_old_false_return_destroys_func_in_use); for the repaired kick-off func is never used after or destroyed during a use "
+    "(C26_fixed_func_safe). Tie: the real TimedTaskScheduler (own thread, queue, kickOffTask/addTimedTask from the compiled "
+    "library) runs 1-2 tasks under the deterministic scheduler with virtual time on an inline schedulable, a thread per wrap "
+    "or a real ThreadPool; every task's atomic operations, func accesses, clock reads, wrap/invocation markers and API calls "
+    "are replayed through the same step function (operation, observed value, kick-off guard with the clock value read, "
+    "declared seq_cst on the four operations of the repaired hand-shake). Oracle: invocation log with virtual timestamps, "
+    "flags sampled at invocation start, running counter at destructor return, ledger of the function object inside func "
+    "(use after / destruction during use), std::terminate and SIGSEGV handlers.",
+    "Trusted: Lean kernel; dsched (TSan-interface runtime, futex/sleep model, virtual clock); dispenso::getTime() is replaced "
+    "by the virtual clock in 2^-30 s ticks (timing.cpp not linked; makes the library's double comparisons exact), so TSC "
+    "calibration and real timer accuracy are not exercised; TimedTaskScheduler::schedule()'s two statements are replicated "
+    "white-box; SC reading (orders: C10); shared_ptr lifetime of the impl (the harness holds a reference); an invocation "
+    "'starts' at wrap's cancelled-flag check (nothing of another thread can be observed between it and the call). The model "
+    "has one impl: pop order among several queue entries is over-approximated (any ready entry), other impls only appear as "
+    "the kicker being idle. The model cannot exhibit: inProgress overflow at 2^32 pending runs, a backing schedulable that "
+    "drops or duplicates wraps, exceptions from the user function.",
+    "Lean 4 proof (inductive invariants over an own interleaving step relation, counting lemmas) + trace validation under a "
+    "deterministic scheduler with virtual time",
+    "DESIGN.md §5.3 C26",
+)
+
 ALL = ["C%02d" % i for i in range(1, 49)]
 for _p in ALL:
     if _p not in CLAIMED:
